@@ -432,6 +432,15 @@ def run(ctx: Any, prog: Program) -> None:
                                     and isinstance(i.body[-1], ast.Break) for i in l.body if isinstance(i, ast.If))
                         if in_body and canon and not l.orelse:
                             ok = True
+            if not ok and kname is not None:
+                # the same canonicalisation as an expression: `key = next((k for k in self._keys if k.casefold() == <folded>), key)` - the stored
+                # spelling when one matches case-insensitively, otherwise the caller's (and then nothing is stored under any spelling of it)
+                for a_ in walk_no_nested(fn):
+                    if isinstance(a_, ast.Assign) and any(dotted(t) == kname for t in a_.targets) and a_.lineno < n.lineno and isinstance(a_.value, ast.Call) and dotted(a_.value.func) == 'next' and len(a_.value.args) == 2 \
+                            and isinstance(a_.value.args[0], ast.GeneratorExp) and len(a_.value.args[0].generators) == 1 and over_keys(a_.value.args[0].generators[0].iter) \
+                            and isinstance(a_.value.args[0].elt, ast.Name) and dotted(a_.value.args[0].generators[0].target) == a_.value.args[0].elt.id \
+                            and any('casefold' in U(i_) for i_ in a_.value.args[0].generators[0].ifs):
+                        ok = True
             if not ok:
                 why = why or 'the key expression is the caller\'s spelling (or a constant), not a spelling known to be stored'
             ctx.check('C07.I8', ok, vm, n, f'Entity.{name}: `{U(n)[:60]}` addresses the case-preserving key store with `{U(key_expr)}`: {why or "stored spelling"}; '
